@@ -137,6 +137,14 @@ func (fw *fileWrites) isWrite(i ssa.Instruction, fr *frame) bool {
 	if fw.dv.objectOf(call.Common().Value, fr).same(fw.file) {
 		return true
 	}
+	// the file kept in a field of a locally built wrapper
+	old := fw.dv.throughFields
+	fw.dv.throughFields = true
+	same := fw.dv.objectOf(call.Common().Value, fr).same(fw.file)
+	fw.dv.throughFields = old
+	if same {
+		return true
+	}
 	return dependencyKind(call.Common().Value.Type()) == "filesystem"
 }
 
@@ -462,11 +470,17 @@ func (c *Ctx) ruleShortWrite(rule string) {
 						continue
 					}
 					lc, ok := ir.StripConv(other).(*ssa.Call)
-					if !ok || ir.CallID(lc) != "builtin.len" {
+					// B.Len() of the bytes.Buffer whose Bytes() is written
+					if ok && ir.CallID(lc) == "bytes.Buffer.Len" {
+						if bc, isB := buf.(*ssa.Call); isB && ir.CallID(bc) == "bytes.Buffer.Bytes" && bc.Call.Args[0] == lc.Call.Args[0] {
+							lc = nil
+						}
+					}
+					if lc != nil && (!ok || ir.CallID(lc) != "builtin.len") {
 						detail = "the count is compared with something other than len(buffer)"
 						continue
 					}
-					if lc.Call.Args[0] != buf {
+					if lc != nil && lc.Call.Args[0] != buf {
 						detail = "the count is compared with the length of a different value than the buffer passed to Write"
 						continue
 					}
@@ -481,10 +495,9 @@ func (c *Ctx) ruleShortWrite(rule string) {
 					if (op == token.LSS) && ir.StripConv(cmp.X) != cnt {
 						continue
 					}
-					seen, _ := ir.Reach(wf, wf.Blocks[ce.Edge.To], nil)
 					allFail := true
-					for _, r := range ir.Returns(wf) {
-						if seen[r.Block().Index] && retClass(wf, r) != "fail" {
+					for r, cls := range retClassesFrom(wf, wf.Blocks[ce.Edge.To], ce.Edge.From) {
+						if cls != "fail" {
 							allFail = false
 							detail = "the short-write branch reaches a return that may report success at " + c.IPos(r)
 						}
